@@ -85,9 +85,12 @@ def check_valid_block(st, rng, res, blk, D, hist, gen_hist_len, profile, big=Fal
     places = (["none"] if gen_hist_len == 0 else []) + (["prefix", "external"] if hist else [])
     nontriv = declib.nontrivial_hint(blk)
     salt = rng.randrange(256)
-    model_budget = 2 if not big else 1
     combos = [(pl, cap) for pl in places for cap in caps]
-    model_pick = set(rng.sample(range(len(combos)), min(model_budget, len(combos))))
+    # correspondence on one sampled (placement, capacity) per block; large histories / capacities cost ~0.1 s per model call
+    cheap = [i for i, (pl, cap) in enumerate(combos) if cap <= n + 64]
+    model_pick = set()
+    if (len(hist) < 60000 and not big) or rng.random() < 0.2:
+        model_pick = {rng.choice(cheap if rng.random() < 0.9 else list(range(len(combos))))}
     for ci, (pl, cap) in enumerate(combos):
         api = {"none": "safe", "prefix": "dict_p", "external": "dict_x"}[pl]
         h = hist if pl != "none" else b""
